@@ -112,7 +112,7 @@ def run(repo: Repo, chk: Check, thorough: bool = False) -> None:
                 if isinstance(e.ops[0], ast.In) and l == ps[2] and r.endswith('.all'):
                     return True
             return None
-        g2 = excluded_by(cfgh.dominating_tests(cfgh.stmt_of(c), raw=True), origin_exports)
+        g2 = excluded_by(cfgh.scenario_facts(cfgh.stmt_of(c)), origin_exports)
         chk.ob('R07.2', f'{MV}._handleReExport :: not moved when the origin exports it itself', g2,
                'dominated by `origin.all is None or origin_name not in origin.all`' if g2 else
                'an object the defining module lists in its own __all__ would be moved away from it', repo.loc(hr.mod, c))
@@ -181,7 +181,7 @@ def run(repo: Repo, chk: Check, thorough: bool = False) -> None:
             al = [n for n in f.walk() if isinstance(n, ast.Assign) and any(isinstance(t, ast.Subscript) and '_localNameToFullName' in norm(t.value) for t in n.targets)]
             after = cf.reachable(cf.stmt_of(c), no_exc=True)
             al_after = [n for n in al if id(n) in after and n is not cf.stmt_of(c)]
-            skip = all(excluded_by(cf.dominating_tests(n, raw=True), moved) for n in al_after)
+            skip = all(excluded_by(cf.scenario_facts(n), moved) for n in al_after)
             chk.ob('R07.2', f'{q} :: a moved name gets no import alias', skip and bool(al),
                    'every alias store the call reaches is excluded when the re-export succeeded (the object itself is now a member)' if skip else
                    'after the move the name is also recorded as an alias to the old location', repo.loc(f.mod, c))
@@ -284,6 +284,17 @@ def run(repo: Repo, chk: Check, thorough: bool = False) -> None:
             if kw is None or (isinstance(kw, ast.Constant) and kw.value is None) or f.name in ('colorize_pyval', 'colorize_inline_pyval'):
                 continue
             maps = values_of(f, kw.id) if isinstance(kw, ast.Name) else [kw]
+            # a conditional expression has two candidate values (`{...} if base is not None else None`)
+            flat: List[ast.AST] = []
+            for m_ in maps:
+                stack = [m_]
+                while stack:
+                    y = stack.pop()
+                    if isinstance(y, ast.IfExp):
+                        stack += [y.body, y.orelse]
+                    else:
+                        flat.append(y)
+            maps = flat
             expr = c.args[0]
             siblings: Set[str] = set()
             if isinstance(expr, ast.Name):
